@@ -3,8 +3,8 @@
 `(S / SD) ** -k`, `(N / ND) ** (-1 / k)`, `(sigma / K) ** (1 / n)`: the slope / hardening exponents are large (k up to 40, 1/n up to
 40), so a power of a quantity that carries a unit - `SD ** k` with SD in Pa, `K ** (1 / n)` - leaves the range of float64 for
 ordinary data although the algebraically identical expression in ratios does not; the result then depends on the unit system.
-`dimensionful_power_bases(fn, dimensionless)` lists the powers whose exponent is not a literal and whose base is neither a
-quotient nor one of the named dimensionless quantities (scatter ratios, strains)."""
+`dimensionful_power_bases(fn, dimensionful)` lists the powers whose exponent is not a literal and whose base is one of the named
+quantities that carry a unit (public attribute / parameter names), not divided by anything."""
 from __future__ import annotations
 
 import ast
@@ -20,35 +20,32 @@ def _literal(e):
     return all(isinstance(x, (ast.Constant, ast.UnaryOp, ast.BinOp, ast.operator, ast.unaryop, ast.expr_context)) for x in ast.walk(e))
 
 
-def _dimensionless(fn_node, b, names, depth=0):
+def _dimensionful(fn_node, b, names, depth=0):
+    """the base is one of the named quantities that carry a unit (or a product with one), not divided by anything"""
     while isinstance(b, ast.Call) and (call_name(b) or "") in NEUTRAL and b.args:
         b = b.args[0]
-    if isinstance(b, ast.Constant):
-        return True
-    if isinstance(b, ast.BinOp) and isinstance(b.op, ast.Div):
-        return True
-    if isinstance(b, ast.Call) and (call_name(b) or "") in ("np.divide", "np.true_divide"):
-        return True
     if isinstance(b, ast.Subscript):
-        return _dimensionless(fn_node, b.value, names, depth)
-    if isinstance(b, ast.Attribute) and b.attr.lstrip("_") in names:
-        return True
+        return _dimensionful(fn_node, b.value, names, depth)
+    if isinstance(b, ast.Attribute):
+        return b.attr.lstrip("_") in names
     if isinstance(b, ast.Name):
-        if b.id.lstrip("_") in names:
-            return True
         if depth < 3:
             d = inline_single_defs(fn_node, b, depth=1)
             if d is not b and not (isinstance(d, ast.Name) and d.id == b.id):
-                return _dimensionless(fn_node, d, names, depth + 1)
+                return _dimensionful(fn_node, d, names, depth + 1)
+        return b.id.lstrip("_") in names
     if isinstance(b, ast.BinOp) and isinstance(b.op, ast.Mult):
-        # a product is dimensionless only if every factor is (a constant times a ratio)
-        return _dimensionless(fn_node, b.left, names, depth) and _dimensionless(fn_node, b.right, names, depth)
-    return False
+        return _dimensionful(fn_node, b.left, names, depth) or _dimensionful(fn_node, b.right, names, depth)
+    if isinstance(b, ast.UnaryOp):
+        return _dimensionful(fn_node, b.operand, names, depth)
+    return False            # quotients, sums, calls, constants: not decided here
 
 
-def dimensionful_power_bases(fn_node, dimensionless=()):
+def dimensionful_power_bases(fn_node, dimensionful=()):
+    """[(node, base text, exponent text)]: powers with a non-literal exponent whose base is one of the named unit-carrying
+    quantities (attribute / parameter names; locals are followed to their single definition)"""
     out = []
-    names = {n.lstrip("_") for n in dimensionless}
+    names = {n.lstrip("_") for n in dimensionful}
     for n in ast.walk(fn_node):
         base = expo = None
         if isinstance(n, ast.BinOp) and isinstance(n.op, ast.Pow):
@@ -57,7 +54,7 @@ def dimensionful_power_bases(fn_node, dimensionless=()):
             base, expo = n.args
         if base is None or _literal(expo):
             continue
-        if not _dimensionless(fn_node, base, names):
+        if _dimensionful(fn_node, base, names):
             out.append((n, norm_text(base)[:50], norm_text(expo)[:40]))
     return out
 
@@ -66,4 +63,4 @@ def selfcheck():
     from .frontend import set_parents
     ex = set_parents(ast.parse("def f(SD, ND, N, k, S, TN, K, n, stress):\n    a = SD * np.power(N / ND, -1.0 / k)\n    c = ND * np.power(SD, k)\n"
                                "    r = stress / K\n    return np.power(c / N, 1.0 / k), TN ** (1.0 / k), np.power(r, 1 / n), K ** (1 / n), S ** 2\n")).body[0]
-    return [b for _, b, _ in dimensionful_power_bases(ex, ("TN", "TS"))] == ["SD", "K"]
+    return [b for _, b, _ in dimensionful_power_bases(ex, ("SD", "ND", "K", "S", "N", "stress"))] == ["SD", "K"]
